@@ -92,7 +92,7 @@ func phasesFor(prop, tier string, workers int) []phase {
 		if q {
 			return []phase{{"extend-histories", false, workers, 600, 60}, {"extend-histories-race", true, workers, 100, 60}}
 		}
-		return []phase{{"extend-histories", false, workers, 16000, 600}, {"extend-histories-race", true, workers, 3000, 300}}
+		return []phase{{"extend-histories", false, workers, 100000, 600}, {"extend-histories-race", true, workers, 12000, 400}}
 	}
 	return nil
 }
